@@ -1,5 +1,6 @@
 use super::swift_utils::{
-    format_swift_amount_for_currency, parse_amount_with_currency, parse_currency_non_commodity,
+    ensure_ascii, format_swift_amount_for_currency, parse_amount_with_currency,
+    parse_currency_non_commodity,
 };
 use crate::errors::ParseError;
 use crate::traits::SwiftField;
@@ -32,6 +33,7 @@ impl SwiftField for Field33B {
     where
         Self: Sized,
     {
+        ensure_ascii(input, "Field 33")?;
         // Field33B format: 3!a15d (currency + amount)
         if input.len() < 4 {
             // Minimum: 3 chars currency + 1 digit amount
